@@ -19,11 +19,12 @@ EXPLANATION = ("Deductive: token languages of the code's regex literals equal th
 def units(tier):
     return ([G.L_TOKENS, G.L_SHAPES, G.U_ACT_SYMBOL, G.U_ACT_ISOTOPE, G.U_ACT_ION, G.U_ACT_FRACT, G.U_ACT_WHOLE,
              G.U_CONVERT_ELEMENT] + G.U_CONVERT_IMPLICIT + G.U_CONVERT_EXPLICIT + G.U_CONVERT_COMPOUND +
-            [G.U_IMMUTABLE, F.U_COUNT_ATOMS, F.U_ATOMS, F.U_CHARGE, K.U_SYMBOL, K.U_EL_GETITEM, K.U_IONSET])
+            [G.U_IMMUTABLE] + G.U_PARSE_FORMULA + [F.U_IMMUTABLE_REC, F.L_DEN_CONGRUENCE, F.U_COUNT_ATOMS, F.U_ATOMS, F.U_CHARGE, K.U_SYMBOL, K.U_EL_GETITEM, K.U_IONSET])
 
 
 def runner_tasks(tier):
-    return [{"module": "c01", "task": "recognition", "kind": "bounded", "clause": "whole-string recognition and rejection"}]
+    return [{"module": "c01", "task": "recognition", "kind": "bounded", "clause": "whole-string recognition and rejection"},
+            {"module": "stateful", "task": "C01", "name": "stateful", "kind": "bounded", "clause": "private table with customised data: formulas parsed with table=T use T's atoms and data"}]
 
 
 REPLAY = {"module": "c01", "task": "replay"}
